@@ -39,6 +39,12 @@ pub enum BOp {
     /// of several dozen nodes (a random function of 8 variables has about 70), on which the later operations of the
     /// history then work
     Dense([u64; 4]),
+    /// the operations that share operands with one another, all on the same (f, v, g) and in a scrambled order:
+    /// condition(f, v, true / false), exists(f, v), compose(f, v, g), ite(f, x_v, g), ite(x_v, f, g), iff(f, x_v),
+    /// xor(f, x_v), and(f, x_v), or(f, !x_v). Caches that key different operations alike, or one operation's
+    /// result under another's key, show only when such siblings meet in one builder. All results but the last join
+    /// the pool as well (and are re-read with it).
+    Siblings(u16, u8, u16, u16),
 }
 
 impl BOp {
@@ -61,6 +67,7 @@ impl BOp {
             BOp::NewVar(..) => "new_var",
             BOp::Cnf(..) => "compile_cnf",
             BOp::Dense(..) => "dense",
+            BOp::Siblings(..) => "siblings",
             BOp::Expr(..) => "compile_logical_expr",
             BOp::Plan(..) => "compile_plan",
             BOp::CnfAssign(..) => "compile_cnf_with_assignments",
@@ -179,6 +186,7 @@ pub fn bop_strategy() -> impl Strategy<Value = BOp> {
         )
             .prop_map(|(c, m)| BOp::CnfAssign(c, m)),
         1 => any::<[u64; 4]>().prop_map(BOp::Dense),
+        2 => (idx_strategy(), any::<u8>(), idx_strategy(), any::<u16>()).prop_map(|(f, v, g, s)| BOp::Siblings(f, v, g, s)),
     ]
 }
 
@@ -240,6 +248,13 @@ pub struct BddRun<'a, T: IteTable<'a, BddPtr<'a>> + Default> {
     pub labels: Vec<usize>,
     /// set when a variable added at run time did not get a fresh label at the end of the order
     pub label_fault: Option<String>,
+    /// set when a result of a Siblings operation (other than the one that joins the pool) does not denote its oracle
+    /// function: (operation, detail). Function correctness belongs to C01; other checks ignore it.
+    pub sibling_fault: Option<(String, String)>,
+    /// all results of the last Siblings operation, in the order they were computed (the last one joined the pool)
+    pub last_siblings: Vec<(&'static str, BddPtr<'a>, Tt)>,
+    /// when set, a Siblings operation computes only the k-th operation of its list (a cold computation of that result)
+    pub siblings_only: Option<usize>,
 }
 
 impl<'a, T: IteTable<'a, BddPtr<'a>> + Default> BddRun<'a, T> {
@@ -273,6 +288,9 @@ impl<'a, T: IteTable<'a, BddPtr<'a>> + Default> BddRun<'a, T> {
             max_new_vars: NV,
             labels,
             label_fault: None,
+            sibling_fault: None,
+            last_siblings: Vec::new(),
+            siblings_only: None,
         }
     }
 
@@ -309,7 +327,7 @@ impl<'a, T: IteTable<'a, BddPtr<'a>> + Default> BddRun<'a, T> {
     pub fn step(&mut self, op: &BOp) -> Option<StepOut> {
         let b = self.b;
         let (ptr, tt, args): (BddPtr<'a>, Tt, Vec<usize>) = match op {
-            BOp::Lit(..) | BOp::Cond(..) | BOp::Exists(..) | BOp::Compose(..) | BOp::Cnf(..) | BOp::Expr(..) | BOp::Plan(..) | BOp::CnfAssign(..) if self.n == 0 => return None,
+            BOp::Lit(..) | BOp::Cond(..) | BOp::Exists(..) | BOp::Compose(..) | BOp::Siblings(..) | BOp::Cnf(..) | BOp::Expr(..) | BOp::Plan(..) | BOp::CnfAssign(..) if self.n == 0 => return None,
             BOp::Expr(e) => {
                 let n = self.n;
                 let e2 = crate::textgen::rename(e, &|v| v % n);
@@ -435,6 +453,49 @@ impl<'a, T: IteTable<'a, BddPtr<'a>> + Default> BddRun<'a, T> {
                     self.pool[a].1.exists(v),
                     vec![a],
                 )
+            }
+            BOp::Siblings(f, v, g, seed) => {
+                let (f, g) = (self.at(*f), self.at(*g));
+                let v = self.v(*v);
+                let (pf, tf) = self.pool[f];
+                let (pg, tg) = self.pool[g];
+                let l = self.lbl(v);
+                let x = b.var(l, true);
+                let tx = Tt::var(v);
+                let mut order: Vec<usize> = (0..10).collect();
+                order.sort_by_key(|k| crate::engine::splitmix((*seed as u64) << 8 | *k as u64));
+                let list: Vec<usize> = order.into_iter().take(4 + (*seed as usize % 7)).collect();
+                let list: Vec<usize> = match self.siblings_only {
+                    Some(j) => vec![list[j.min(list.len() - 1)]],
+                    None => list,
+                };
+                let mut out: Vec<(&'static str, BddPtr<'a>, Tt)> = Vec::new();
+                for k in list {
+                    out.push(match k {
+                        0 => ("condition(f, v, true)", b.condition(pf, l, true), tf.cofactor(v, true)),
+                        1 => ("condition(f, v, false)", b.condition(pf, l, false), tf.cofactor(v, false)),
+                        2 => ("exists(f, v)", b.exists(pf, l), tf.exists(v)),
+                        3 => ("compose(f, v, g)", b.compose(pf, l, pg), tf.compose(v, tg)),
+                        4 => ("ite(f, x_v, g)", b.ite(pf, x, pg), tf.ite(tx, tg)),
+                        5 => ("ite(x_v, f, g)", b.ite(x, pf, pg), tx.ite(tf, tg)),
+                        6 => ("iff(f, x_v)", b.iff(pf, x), tf.iff(tx)),
+                        7 => ("xor(f, x_v)", b.xor(pf, x), tf.xor(tx)),
+                        8 => ("and(f, x_v)", b.and(pf, x), tf.and(tx)),
+                        _ => ("or(f, !x_v)", b.or(pf, b.negate(x)), tf.or(tx.not())),
+                    });
+                }
+                for (i, (what, p, t)) in out.iter().enumerate() {
+                    let got = crate::walk::bdd_tt(*p);
+                    if got != *t && self.sibling_fault.is_none() {
+                        self.sibling_fault = Some((
+                            what.to_string(),
+                            format!("{} as call {} of {:?} on one (f, v, g) = (entry {}, variable {}, entry {}) denotes {:?}, expected {:?}", what, i + 1, out.iter().map(|x| x.0).collect::<Vec<_>>(), f, v, g, got, t),
+                        ));
+                    }
+                }
+                let last = *out.last().unwrap();
+                self.last_siblings = out;
+                (last.1, last.2, vec![f, g])
             }
             BOp::Compose(f, v, g) => {
                 let (f, g) = (self.at(*f), self.at(*g));
